@@ -883,3 +883,116 @@ def fn_ingredients(prog, g, depth=5):
     res = out if found else None
     _FN_INGR[key] = res
     return res
+
+
+# ------------------------------------------------------------------------------------------------ tabulation with helpers inlined
+
+def _norm(sym):
+    """deref(ref(x)) -> x, ref(deref(ref x)) stays a ref of x: keeps substituted expressions structurally comparable."""
+    if not isinstance(sym, tuple) or not sym:
+        return sym
+    if isinstance(sym[0], str):
+        t = tuple(_norm(x) if isinstance(x, tuple) else x for x in sym)
+        if t[0] == "deref" and isinstance(t[1], tuple) and t[1] and t[1][0] == "ref":
+            return t[1][1]
+        if t[0] == "call" and len(t) > 3:
+            t = t[:3]           # drop the block id: the same call reached on two paths is the same value
+        return t
+    return tuple(_norm(x) for x in sym)
+
+
+def _replace(sym, old, new):
+    if sym == old:
+        return new
+    if not isinstance(sym, tuple) or not sym:
+        return sym
+    return tuple(_replace(x, old, new) if isinstance(x, tuple) else x for x in sym)
+
+
+def _merge_conds(conds):
+    """Conjunction of (sym, ('eq', v) | ('ne', [v..])) constraints; None if contradictory.  Constant subjects are evaluated."""
+    known = {}
+    for d, c in conds:
+        if d[0] == "const":
+            try:
+                v = int(d[1])
+            except (TypeError, ValueError):
+                return None
+            if (c[0] == "eq" and v != c[1]) or (c[0] == "ne" and v in c[1]):
+                return None
+            continue
+        k = known.get(d)
+        if k is None:
+            known[d] = c if c[0] == "eq" else ("ne", sorted(set(c[1])))
+        elif k[0] == "eq":
+            if (c[0] == "eq" and c[1] != k[1]) or (c[0] == "ne" and k[1] in c[1]):
+                return None
+        else:
+            if c[0] == "eq":
+                if c[1] in k[1]:
+                    return None
+                known[d] = c
+            else:
+                known[d] = ("ne", sorted(set(k[1]) | set(c[1])))
+    return list(known.items())
+
+
+def tabulate_inlined(prog, f, depth=3, max_rows=512, inline=None):
+    """Return rows [(conds, ret)] of f with every call to a workspace function accepted by `inline` (default: all; whose own
+    rows can be computed) replaced by that function's rows: conditions are conjoined, contradictory combinations dropped.  Nothing is executed."""
+    from .tabulate import tabulate
+    rows = []
+    for p in tabulate(f, prog, 256):
+        if p.end != "return" or p.ret is None:
+            continue
+        conds = _merge_conds([(_norm(d), c) for d, c in p.conds])
+        if conds is None:
+            continue
+        rows.append((conds, _norm(p.ret)))
+    if depth <= 0:
+        return rows
+    cache = {}
+    changed = True
+    guard = 0
+    while changed and guard < 32:
+        changed = False
+        guard += 1
+        out = []
+        for conds, ret in rows:
+            call = None
+            for sy in [d for d, _ in conds] + [ret]:
+                for sub in sym_walk(sy):
+                    if sub[0] == "call" and prog.get(sub[1]) is not None and prog.get(sub[1]).path != f.path and sub[1] not in cache.get("bad", ()) \
+                            and (inline is None or inline(prog.get(sub[1]))):
+                        call = sub
+                        break
+                if call:
+                    break
+            if call is None:
+                out.append((conds, ret))
+                continue
+            g = prog.get(call[1])
+            if g.path not in cache:
+                try:
+                    cache[g.path] = tabulate_inlined(prog, g, depth - 1, max_rows, inline)
+                except Exception:
+                    cache[g.path] = None
+            grows = cache[g.path]
+            if not grows:
+                cache.setdefault("bad", set()).add(call[1])
+                out.append((conds, ret))
+                changed = True
+                continue
+            mapping = {i + 1: a for i, a in enumerate(call[2])}
+            for gconds, gret in grows:
+                gret_s = _norm(sym_subst(gret, mapping))
+                new_conds = [(_norm(_replace(d, call, gret_s)), c) for d, c in conds] + [(_norm(sym_subst(d, mapping)), c) for d, c in gconds]
+                merged = _merge_conds(new_conds)
+                if merged is None:
+                    continue
+                out.append((merged, _norm(_replace(ret, call, gret_s))))
+            changed = True
+            if len(out) > max_rows:
+                raise RuntimeError("too many rows while inlining %s" % f.path)
+        rows = out
+    return rows
